@@ -107,3 +107,21 @@ Theorem C11_project_order :
     NoDup project_order.
 Proof. exact (conj in_all_doc_collections project_order_shape). Qed.
 Print Assumptions C11_project_order.
+
+(* ---- an item kind word on the first part --------------------------------------------------- *)
+(* [[area(bound)]]: "bound", "variable", "final", "common", "constructor", "modproc" are no
+   component kinds; among the contents of the documented entity, then of its parent, they select
+   the items of that kind (the project-wide search knows no such word): if one of the two levels
+   has such an item of that name, the reference is a link to it *)
+Theorem C11_lookup_item_kind_word : forall p ctx r k a,
+  r_child r = None -> r_kind r = Some k ->
+  comp_kind k = None -> assoc_get (lower k) doc_item_kinds = Some a ->
+  match ctx with
+  | None => True
+  | Some c => exists e, get_ent p c = Some e /\
+                        match e_parent e with Some par => exists e', get_ent p par = Some e' | None => True end
+  end ->
+  urls_ok p = true -> ids_ok p = true ->
+  spec_accepts p ctx r (render p ctx r) = true.
+Proof. exact lookup_item_kind_word. Qed.
+Print Assumptions C11_lookup_item_kind_word.
